@@ -1,5 +1,325 @@
 import Driver.Util
+import KavaVerif.Model.Auction
+/-!
+  C06 driver.
+
+  `c06.split  amount  weights  =>  parts|panic`
+      the real `splitIntIntoWeightedBuckets` output; checked against the Lean predicate `IsLRSplit`
+      (PREDFAIL C06_split …) and, for ≤ 12 buckets (where Go's sort.Slice is an insertion sort, hence
+      deterministic), compared with the model `lrSplit` (MISMATCH).
+  `c06.inc  old  inc  =>  v`      `MaxInt(1, NewDecFromInt(old).Mul(inc).RoundInt())`
+  `c06.op   M nil blocked minter burner DF  maxDur fwdDur revDur incS incD incC  now
+            nextId aucs index bals   op   =>   result   nextId' aucs' index' bals'`
+      one keeper call on the real keeper: observed pre-state, operation, result class, observed
+      post-state.  (1) the model is run on the observed pre-state and compared (MISMATCH);
+      (2) the property predicates are evaluated on the implementation's own observation (PREDFAIL).
+
+  auction  = key:id:kind:initiator:lotD:lot:bidder:bidD:bid:has:end:maxEnd:debtD:debt:maxBid:addrs:weights
+  index    = end:id:value ;…      bals = one row per address `;`, one entry per denom `,`
+  op       = ss:seller:lotD:lot:bidD | sd:buyer:bidD:bid:lotD:lot:debtD:debt
+           | sc:seller:lotD:lot:bidD:maxBid:addrs:weights:debtD:debt | pb:id:bidder:denom:amt | cl:id | bb
+-/
 namespace Drv.C06
-/-- handlers of property C06: (command name, handler) -/
-def handlers : List (String × Handler) := []
+open KV KV.Auc
+
+/-! ### split -/
+
+def checkSplit (a : Int) (ws parts : List Int) : Option String :=
+  let W := sumL ws
+  let n := ws.length
+  let q := fun i => a * ws.getD i 0 / W
+  let r := fun i => a * ws.getD i 0 % W
+  let e := fun i => parts.getD i 0 - q i
+  if parts.length != n then some "length"
+  else if sumL parts != a then some "sum-differs"
+  else if (List.range n).any (fun i => let d := parts.getD i 0 * W - a * ws.getD i 0; d ≥ W || d ≤ -W) then some "not-within-one"
+  else if (List.range n).any (fun i => ws.getD i 0 == 0 && parts.getD i 0 != 0) then some "zero-weight-paid"
+  else if (List.range n).any (fun i => e i != 0 && e i != 1) then some "not-floor-or-ceil"
+  else if (List.range n).any (fun i => (List.range n).any (fun j => e i == 1 && e j == 0 && r j > r i)) then
+    some "not-largest-remainder"
+  else if !(decide (IsLRSplit a ws parts)) then some "IsLRSplit"
+  else none
+
+def handleSplit : Handler
+  | [a, ws, _, res] =>
+    match int? a, ints? ws with
+    | some a, some ws =>
+      let m := lrSplit a ws
+      if res == "panic" then
+        (match m with | none => "ok" | some _ => mismatch "split" "value" "panic")
+      else
+        match ints? res with
+        | none => badInput "parts"
+        | some parts =>
+          match m with
+          | none => mismatch "split" "panic" res
+          | some mp =>
+            match checkSplit a ws parts with
+            | some why => predfail "C06_split" why
+            | none =>
+              if ws.length ≤ 12 && mp != parts then mismatch "split" (showInts mp) res else "ok"
+    | _, _ => badInput "ints"
+  | _ => badInput "arity"
+
+def handleInc : Handler
+  | [old, inc, _, v] =>
+    match int? old, int? inc with
+    | some old, some inc => expectEq "inc" (toString (incOf old ⟨inc⟩)) v
+    | _, _ => badInput "ints"
+  | _ => badInput "arity"
+
+/-! ### keeper-level cases -/
+
+structure Obs where
+  nextId : Nat
+  aucs : List (Nat × Auction)         -- (store key, record) in store order
+  index : List (Int × Nat × Nat)      -- (key time, key id, value)
+  bals : List (List Int)
+
+def kind? : String → Option Kind
+  | "s" => some .surplus | "d" => some .debt | "c" => some .collateral | _ => none
+
+def parseAuction (s : String) : Option (Nat × Auction) :=
+  match s.splitOn ":" with
+  | [key, id, kind, ini, lotD, lot, bidder, bidD, bid, has, e, me, debtD, debt, maxBid, addrs, ws] =>
+    match nat? key, nat? id, kind? kind, nat? ini, nat? lotD, int? lot, nat? bidder, nat? bidD, int? bid,
+          bool? has, int? e, int? me, nat? debtD, int? debt, int? maxBid, nats? addrs, ints? ws with
+    | some key, some id, some kind, some ini, some lotD, some lot, some bidder, some bidD, some bid,
+      some has, some e, some me, some debtD, some debt, some maxBid, some addrs, some ws =>
+      some (key, { id := id, kind := kind, initiator := ini, lotD := lotD, lot := lot, bidder := bidder,
+                   bidD := bidD, bid := bid, hasBids := has, endT := e, maxEnd := me, debtD := debtD,
+                   debt := debt, maxBid := maxBid, retAddrs := addrs, retW := ws })
+    | _, _, _, _, _, _, _, _, _, _, _, _, _, _, _, _, _ => none
+  | _ => none
+
+def parseIdx (s : String) : Option (Int × Nat × Nat) :=
+  match s.splitOn ":" with
+  | [e, i, v] => match int? e, nat? i, nat? v with
+    | some e, some i, some v => some (e, i, v)
+    | _, _, _ => none
+  | _ => none
+
+def parseObs (nextId aucs index bals : String) : Option Obs :=
+  match nat? nextId, (strs aucs ";").mapM parseAuction, (strs index ";").mapM parseIdx,
+        (strs bals ";").mapM ints? with
+  | some n, some a, some i, some b => some ⟨n, a, i, b⟩
+  | _, _, _, _ => none
+
+def Obs.toSt (o : Obs) : St :=
+  { auc := fun i => (o.aucs.find? (fun ka => ka.1 == i)).map (·.2),
+    nextId := o.nextId,
+    index := o.index.map (fun x => (x.1, x.2.1)),
+    bal := fun a d => (o.bals.getD a []).getD d 0 }
+
+def Obs.bal (o : Obs) (a d : Nat) : Int := (o.bals.getD a []).getD d 0
+def Obs.find (o : Obs) (id : Nat) : Option Auction := (o.aucs.find? (fun ka => ka.1 == id)).map (·.2)
+
+def parseOp (s : String) : Option Op :=
+  match s.splitOn ":" with
+  | ["ss", seller, lotD, lot, bidD] =>
+    match nat? seller, nat? lotD, int? lot, nat? bidD with
+    | some a, some b, some c, some d => some (.startSurplus a b c d)
+    | _, _, _, _ => none
+  | ["sd", buyer, bidD, bid, lotD, lot, debtD, debt] =>
+    match nat? buyer, nat? bidD, int? bid, nat? lotD, int? lot, nat? debtD, int? debt with
+    | some a, some b, some c, some d, some e, some f, some g => some (.startDebt a b c d e f g)
+    | _, _, _, _, _, _, _ => none
+  | ["sc", seller, lotD, lot, bidD, maxBid, addrs, ws, debtD, debt] =>
+    match nat? seller, nat? lotD, int? lot, nat? bidD, int? maxBid, nats? addrs, ints? ws, nat? debtD, int? debt with
+    | some a, some b, some c, some d, some e, some f, some g, some h, some i =>
+      some (.startCollateral a b c d e f g h i)
+    | _, _, _, _, _, _, _, _, _ => none
+  | ["pb", id, bidder, denom, amt] =>
+    match nat? id, nat? bidder, nat? denom, int? amt with
+    | some a, some b, some c, some d => some (.placeBid a b c d)
+    | _, _, _, _ => none
+  | ["cl", id] => (nat? id).map .close
+  | ["bb"] => some .beginBlock
+  | _ => none
+
+def flags (l : List Int) : Nat → Bool := fun i => l.getD i 0 == 1
+
+/-- lexicographic order of the by-time keys -/
+def idxSorted : List (Int × Nat × Nat) → Bool
+  | x :: y :: rest => keyLt (x.1, x.2.1) (y.1, y.2.1) && idxSorted (y :: rest)
+  | _ => true
+
+/-- C06_custody on an observation: module balance = Σ GetModuleAccountCoins, per denom -/
+def custodyPred (M : Nat) (nd : Nat) (o : Obs) : Option String :=
+  if (List.range nd).any (fun d => o.bal M d != sumL (o.aucs.map (fun ka => modCoins ka.2 d))) then
+    some "module-balance-differs"
+  else none
+
+/-- C06_index_exact on an observation -/
+def indexPred (o : Obs) : Option String :=
+  if o.aucs.any (fun ka => ka.1 != ka.2.id) then some "key-id-differs"
+  else if o.aucs.any (fun ka => ka.1 ≥ o.nextId) then some "id-not-below-next"
+  else if o.index.any (fun x => x.2.1 != x.2.2) then some "index-value-differs"
+  else if !idxSorted o.index then some "index-not-sorted"
+  else if o.aucs.any (fun ka => (o.index.filter (fun x => x.2.1 == ka.1)).length != 1) then some "id-not-exactly-once"
+  else if o.aucs.any (fun ka => !(o.index.any (fun x => x.1 == ka.2.endT && x.2.1 == ka.1))) then some "index-entry-missing"
+  else if o.index.length != o.aucs.length then some "index-entry-stale"
+  else none
+
+def timePred (o : Obs) : Option String :=
+  if o.aucs.any (fun ka => ka.2.endT > ka.2.maxEnd) then some "end-after-max-end" else none
+
+def allDistinct (a : Auction) : Bool :=
+  match a.kind with
+  | .surplus => a.lotD != a.bidD
+  | _ => a.lotD != a.bidD && a.lotD != a.debtD && a.bidD != a.debtD
+
+def delta (pre post : Obs) (a d : Nat) : Int := post.bal a d - pre.bal a d
+
+def listNodup : List Nat → Bool
+  | [] => true
+  | x :: xs => !xs.contains x && listNodup xs
+
+/-- predicates of an accepted bid, stated on the observed pre/post auction and balances -/
+def bidPred (M : Nat) (p : Params) (now : Int) (pre post : Obs) (id bidder denom : Nat) (amt : Int) : String :=
+  match pre.find id, post.find id with
+  | some a, some a' =>
+    let fwd := a.kind == .surplus || (a.kind == .collateral && a.bid != a.maxBid)
+    -- C06_endtime
+    if now > a.endT then predfail "C06_endtime" "bid-accepted-after-end"
+    else if a'.endT > a'.maxEnd then predfail "C06_endtime" "end-after-max-end"
+    else if a.hasBids && a'.maxEnd != a.maxEnd then predfail "C06_endtime" "max-end-moved"
+    else if !a.hasBids && a'.maxEnd != now + p.maxDur then predfail "C06_endtime" "max-end-not-set-by-first-bid"
+    else if !a'.hasBids then predfail "C06_endtime" "has-bids-not-set"
+    else if a'.endT > now + (if a.kind == .collateral && a'.bid == a'.maxBid then p.revDur else p.fwdDur)
+      then predfail "C06_endtime" "end-beyond-bid-duration"
+    else if a'.bidder != bidder then predfail "C06_bid_rules" "bidder-not-recorded"
+    -- C06_bid_rules
+    else if fwd then
+      let inc := if a.kind == .surplus then p.incS else p.incC
+      let need := a.bid + incOf a.bid inc
+      if denom != a.bidD then predfail "C06_bid_rules" "wrong-denom-accepted"
+      else if a'.bid != amt then predfail "C06_bid_rules" "bid-not-recorded"
+      else if a'.lot != a.lot then predfail "C06_bid_rules" "lot-changed-by-forward-bid"
+      else if a.kind == .collateral && amt > a.maxBid then predfail "C06_bid_rules" "above-max-bid"
+      else if amt < need && !(a.kind == .collateral && amt == a.maxBid) then predfail "C06_bid_rules" "below-increment"
+      else if amt ≤ a.bid then predfail "C06_bid_rules" "not-an-improvement"
+      -- C06_outbid_refunded (denominations pairwise distinct: no other flow in the bid denom)
+      else if !allDistinct a then "ok"
+      else if bidder != a.bidder && a.bid > 0 && delta pre post a.bidder a.bidD != a.bid then
+        predfail "C06_outbid_refunded" "standing-bidder-not-made-whole"
+      else if bidder != a.bidder && delta pre post bidder a.bidD != -amt then predfail "C06_outbid_refunded" "new-bidder-payment"
+      else if bidder == a.bidder && delta pre post bidder a.bidD != -(amt - a.bid) then
+        predfail "C06_outbid_refunded" "rebid-not-increment-only"
+      else if delta pre post M a.bidD != 0 then predfail "C06_custody" "bid-kept-in-module"
+      else "ok"
+    else
+      let inc := if a.kind == .debt then p.incD else p.incC
+      if denom != a.lotD then predfail "C06_bid_rules" "wrong-denom-accepted"
+      else if a'.lot != amt then predfail "C06_bid_rules" "lot-not-recorded"
+      else if a'.bid != a.bid then predfail "C06_bid_rules" "bid-changed-by-reverse-bid"
+      else if amt > a.lot - incOf a.lot inc then predfail "C06_bid_rules" "above-decrement"
+      else if amt ≥ a.lot then predfail "C06_bid_rules" "not-an-improvement"
+      else if amt < 0 then predfail "C06_bid_rules" "negative-lot"
+      else if !allDistinct a then "ok"
+      else if bidder != a.bidder && delta pre post a.bidder a.bidD != a.bid then
+        predfail "C06_outbid_refunded" "standing-bidder-not-made-whole"
+      else if bidder != a.bidder && delta pre post bidder a.bidD != -a.bid then predfail "C06_outbid_refunded" "new-bidder-payment"
+      else if bidder == a.bidder && delta pre post bidder a.bidD != 0 then predfail "C06_outbid_refunded" "rebid-not-increment-only"
+      else if a.kind == .collateral then
+        -- C06_payout_exact, reverse phase: what leaves the module is lot − lot′ and goes to the depositors
+        let ret := a.lot - amt
+        let n := pre.bals.length
+        let credited := sumL ((List.range n).map (fun x => if x == M then 0 else delta pre post x a.lotD))
+        if delta pre post M a.lotD != -ret then predfail "C06_payout_exact" "returned-not-lot-difference"
+        else if credited != ret then predfail "C06_payout_exact" "returns-do-not-sum"
+        else if listNodup a.retAddrs && !a.retAddrs.contains M then
+          let parts := a.retAddrs.map (fun x => delta pre post x a.lotD)
+          match checkSplit ret a.retW parts with
+          | some why => predfail "C06_split" why
+          | none => "ok"
+        else "ok"
+      else "ok"
+  | _, _ => predfail "C06_index_exact" "bid-on-missing-auction"
+
+/-- predicates of one closed auction `a` (pre-state record), stated on balances -/
+def closePred (M : Nat) (now : Int) (pre post : Obs) (a : Auction) (single : Bool) : String :=
+  if now < a.endT then predfail "C06_endtime" "closed-before-end"
+  else if (post.find a.id).isSome then predfail "C06_endtime" "closed-auction-still-stored"
+  else if !single || !allDistinct a then "ok"
+  else if delta pre post a.bidder a.lotD != a.lot then predfail "C06_payout_exact" "winner-not-paid-lot"
+  else if a.kind != .debt && delta pre post M a.lotD != -a.lot then predfail "C06_payout_exact" "module-lot"
+  else if a.kind != .surplus && delta pre post a.initiator a.debtD != a.debt then
+    predfail "C06_payout_exact" "debt-not-returned-to-initiator"
+  else if a.kind != .surplus && delta pre post M a.debtD != -a.debt then predfail "C06_payout_exact" "module-debt"
+  else "ok"
+
+def showAuc (a : Auction) : String :=
+  let k := match a.kind with | .surplus => "s" | .debt => "d" | .collateral => "c"
+  s!"{a.id}:{k}:{a.initiator}:{a.lotD}:{a.lot}:{a.bidder}:{a.bidD}:{a.bid}:{showBool a.hasBids}:{a.endT}:{a.maxEnd}:{a.debtD}:{a.debt}:{a.maxBid}:{a.retAddrs}:{a.retW}"
+
+/-- model post-state vs observed post-state -/
+def compareSt (s : St) (o : Obs) (na nd : Nat) : String :=
+  if s.nextId != o.nextId then mismatch "nextId" (toString s.nextId) (toString o.nextId) else
+  let top := max s.nextId o.nextId
+  match (List.range top).find? (fun i => s.auc i != o.find i) with
+  | some i => mismatch s!"auction[{i}]" (((s.auc i).map showAuc).getD "none") (((o.find i).map showAuc).getD "none")
+  | none =>
+    let oi := o.index.map (fun x => (x.1, x.2.1))
+    if s.index != oi then mismatch "index" (toString s.index) (toString oi) else
+    match (List.range na).find? (fun a => (List.range nd).any (fun d => s.bal a d != o.bal a d)) with
+    | some a => mismatch s!"balance[{a}]" (toString ((List.range nd).map (s.bal a))) (toString ((List.range nd).map (o.bal a)))
+    | none => "ok"
+
+def handleOp : Handler
+  | [M, nilA, blocked, minter, burner, DF, maxDur, fwdDur, revDur, incS, incD, incC, now,
+     nextId, aucs, index, bals, op, _, result, nextId', aucs', index', bals'] =>
+    match nat? M, nat? nilA, ints? blocked, ints? minter, ints? burner, int? DF,
+          int? maxDur, int? fwdDur, int? revDur, int? incS, int? incD, int? incC, int? now,
+          parseObs nextId aucs index bals, parseOp op with
+    | some M, some nilA, some blocked, some minter, some burner, some DF,
+      some maxDur, some fwdDur, some revDur, some incS, some incD, some incC, some now,
+      some pre, some op =>
+      let env : Env := { M := M, nilAddr := nilA, blocked := flags blocked, minter := flags minter,
+                         burner := flags burner, distantFuture := DF }
+      let p : Params := { maxDur := maxDur, fwdDur := fwdDur, revDur := revDur, incS := ⟨incS⟩, incD := ⟨incD⟩, incC := ⟨incC⟩ }
+      let res := step env p now pre.toSt op
+      let cls := match res with | .ok _ => "ok" | .err => "err" | .notFound => "err" | .panic => "panic"
+      if cls != result then mismatch "result" cls result
+      else if result != "ok" then "ok"
+      else
+        match parseObs nextId' aucs' index' bals' with
+        | none => badInput "post"
+        | some post =>
+          let na := pre.bals.length
+          let nd := (pre.bals.getD 0 []).length
+          -- (2) property predicates on the implementation's own observation (a failing input is the
+          --     stronger verdict, so it is reported before a model/implementation difference)
+          let pred :=
+            match custodyPred M nd post with
+            | some why => predfail "C06_custody" why
+            | none =>
+            match indexPred post with
+            | some why => predfail "C06_index_exact" why
+            | none =>
+            match timePred post with
+            | some why => predfail "C06_endtime" why
+            | none =>
+              match op with
+              | .placeBid id bidder denom amt => bidPred M p now pre post id bidder denom amt
+              | .close id =>
+                (match pre.find id with
+                 | some a => closePred M now pre post a true
+                 | none => predfail "C06_endtime" "closed-missing-auction")
+              | .beginBlock =>
+                let gone := pre.aucs.filter (fun ka => (post.find ka.1).isNone)
+                let late := post.aucs.filter (fun ka => ka.2.endT ≤ now)
+                if !late.isEmpty then predfail "C06_endtime" "expired-auction-left-open"
+                else if pre.aucs.any (fun ka => ka.2.endT > now && post.find ka.1 != some ka.2) then
+                  predfail "C06_endtime" "unexpired-auction-touched"
+                else allOk (gone.map (fun ka => closePred M now pre post ka.2 (gone.length == 1)))
+              | _ => "ok"
+          if pred != "ok" then pred else
+          -- (1) model vs implementation
+          match res with | .ok s' => compareSt s' post na nd | _ => "ok"
+    | _, _, _, _, _, _, _, _, _, _, _, _, _, _, _ => badInput "parse"
+  | _ => badInput "arity"
+
+def handlers : List (String × Handler) :=
+  [("c06.split", handleSplit), ("c06.inc", handleInc), ("c06.op", handleOp)]
 end Drv.C06
